@@ -262,6 +262,45 @@ def impl_cases(payload):
     return out
 
 
+def impl_wrapper(payload):
+    """The public wrapper calc_pk_from_deltak must hand its arguments to bin_kmu as given: for every requested list of multipoles
+    (any order, repeats allowed) row i of `binned_poles` is the multipole poles[i], i.e. what the kernel - whose output the
+    oracle judges in the main cases - returns for that same list, times Lbox^3; counts and the other columns likewise."""
+    import numpy as np
+    from abacusnbody.analysis.power_spectrum import bin_kmu, calc_pk_from_deltak, get_raw_power
+    from vlib.implrun import classify
+    out = []
+    for c in payload['cases']:
+        n, L = c['n'], c['L']
+        rs = np.random.RandomState(c['seed'])
+        f = (rs.standard_normal((n, n, n // 2 + 1)) + 1j * rs.standard_normal((n, n, n // 2 + 1))).astype(np.complex64)
+        kedges = np.array(c['kedges'], dtype=np.float64) * 2 * np.pi / L
+        mu = np.array(c['mu'], dtype=np.float64)
+        poles = np.array(c['poles'], dtype=np.int64)
+        rec = {'poles': c['poles']}
+        try:
+            got = calc_pk_from_deltak(f.copy(), L, kedges, mu, poles=poles, squeeze_mu_axis=False, nthread=c['nthread'])
+            raw = get_raw_power(f.copy(), None)
+            pw, nm, bp, nmp, kav = bin_kmu(n, L, kedges, mu, raw, poles, nthread=c['nthread'])
+            want = {'power': pw * L ** 3, 'N_mode': nm, 'binned_poles': bp * L ** 3 if len(poles) else bp, 'N_mode_poles': nmp, 'k_avg': kav}
+            bad = []
+            for k, wv in want.items():
+                gv = np.asarray(got[k])
+                wv = np.asarray(wv)
+                if gv.shape != wv.shape:
+                    bad.append(f'{k}: shape {list(gv.shape)} instead of {list(wv.shape)}')
+                elif gv.dtype.kind in 'iu':
+                    if not np.array_equal(gv, wv):
+                        bad.append(f'{k}: integer column differs')
+                elif not np.allclose(gv, wv, rtol=1e-5, atol=1e-6 * float(np.abs(wv).max() if wv.size else 1), equal_nan=True):
+                    bad.append(f'{k}: differs from the kernel output for the same arguments (max |diff| {float(np.nanmax(np.abs(gv - wv))):.3g})')
+            rec.update({'class': 'ok', 'bad': bad})
+        except Exception as e:  # noqa: BLE001
+            rec.update({'class': classify(e), 'error': repr(e)[:200], 'bad': ['raised']})
+        out.append(rec)
+    return out
+
+
 def impl_bigmesh(payload):
     """Mode counts on a mesh large enough that a bin holds more than 2^25 modes (n1d = 384: 56 623 104 modes in one bin that
     covers every wavenumber): the count must be n1d^3 exactly, for every thread count — integer counts may not pass through
@@ -719,6 +758,26 @@ def explore(ctx):
                     'input': {'bigmesh': True, 'n': big_n, 'kernel': r['kernel'], 'nthread': r['nthread']}, 'impl_result': r,
                     'expected': {'counts': [big_n ** 3]},
                     'predicate': 'mode counts are exact integers: every mode of the full mesh inside the binned range counted once'}
+    # the public wrapper hands the pole list on as given (any order, repeats)
+    wcases = []
+    for n in (6, 9):
+        for poles in ([2, 0], [4, 0, 2], [0, 2, 2], [0, 2, 4], [3, 0], [0], []):
+            wcases.append({'n': n, 'L': 64.0, 'seed': ctx.rng.randrange(1 << 30), 'kedges': [0.5, 1.7, 2.9, 4.6], 'mu': [0.0, 0.4, 1.0],
+                           'poles': poles, 'nthread': ctx.rng.choice([1, 2, 3])})
+    try:
+        wres = ctx.run_impl('harness.c08', 'impl_wrapper', {'cases': wcases})
+    except Exception as e:  # noqa: BLE001
+        wres = []
+        ctx.notes.append(f'wrapper stage failed: {str(e)[:200]}')
+    for c, r in zip(wcases, wres):
+        evaluations += 1
+        if r['bad'] and 'calc_pk_from_deltak:arguments' not in counterexamples:
+            counterexamples['calc_pk_from_deltak:arguments'] = {
+                'key': 'calc_pk_from_deltak:arguments', 'what': f"calc_pk_from_deltak(poles={c['poles']}) does not return what bin_kmu gives for the "
+                f"same arguments: {'; '.join(r['bad'])[:300]}", 'input': dict(c, wrapper=True), 'impl_result': r,
+                'expected': 'row i of binned_poles is the multipole poles[i] (kernel output x Lbox^3); same counts and means',
+                'predicate': 'every mode is binned once and the per-bin sums reported for multipole l are those of l'}
+    dist['wrapper_runs'] = len(wcases)
     pts, pn_bad = check_pn(ctx)
     evaluations += len(pts)
     for b in pn_bad[:1]:
@@ -810,6 +869,9 @@ def search(ctx, broken):
 
 def replay(ctx, rec):
     c = rec['input']
+    if c.get('wrapper'):
+        r = ctx.run_impl('harness.c08', 'impl_wrapper', {'cases': [c]})[0]
+        return bool(r['bad']), {'input': c, 'impl_result': r}
     if c.get('bigmesh'):
         rs = ctx.run_impl('harness.c08', 'impl_bigmesh', {'n': c['n'], 'threads': [c['nthread']]}, timeout=900)
         r = [x for x in rs if x['kernel'] == c['kernel']][0]
